@@ -54,6 +54,27 @@ def generic_rules(ctx, config, U):
            "Rate{a,u,m,p} * q: %s — expected new(a * (q / as_qty(p)) / m, u) in every case; observed %s" % (
                probs[0][1] if probs else "", "; ".join("[%s] %s" % (T.show_guard(g), T.show(x)) for g, k, x in outs)), b["span"])
     ctx.sample({"function": path, "summary": T.show(t) if t else str(outs)})
+    if t is not None and t[0] == "app" and t[1] == "Quantity::new":
+        named_intermediates(ctx, "rate-intermediates", "%s/rate*q" % config, t[3][0], [Dq, ("/", Dq, ps[2]), ("*", ("/", Dq, ps[2]), ps[0])], b["span"])
+
+
+def named_intermediates(ctx, rule, inst, result_term, named, where):
+    """Every arithmetic node of a rate operation must be one of the magnitudes the property names — the like-quantity
+    ratio, value / per value, and the result (as rational functions).  A node outside this set (e.g. the bare rate
+    number term / per multiple) is a value no input or result magnitude bounds: in the fixed-point back-end its
+    rounding to 18 fractional digits can wipe out most significant digits although operands and result are ordinary."""
+    from . import magn
+    bad = []
+    for nd in magn.arith_nodes(result_term):
+        try:
+            if not any(ratfun.same_real_function(nd, x) for x in named):
+                bad.append(T.show(nd))
+        except Exception as e:   # not a rational function of the named atoms
+            bad.append("%s (%s)" % (T.show(nd), e))
+    ctx.ob(rule, inst, not bad,
+           "intermediate value(s) %s are none of the magnitudes the operation is defined by (%s): their rounding is not bounded by the "
+           "operands' and the result's magnitudes (decimal back-end: e.g. 1 / 3e12 keeps 6 significant digits)" % (bad[:3], "; ".join(T.show(x) for x in named)),
+           where, nontrivial=False)
 
 
 def per_type(ctx, config, w):
@@ -95,6 +116,9 @@ def per_type(ctx, config, w):
             probs = list(S.compare_cases(outs, [], lambda val, want=want: ("val", want)))
             ctx.ob("rate-op", inst, not probs, "%s — expected %s in every case; observed %s" % (
                 probs[0][1] if probs else "", text, "; ".join("[%s] %s" % (T.show_guard(g), T.show(x)) for g, k, x in outs)), b["span"])
+            if t is not None and t[0] == "app" and t[1] == "Quantity::new":
+                nm = [Dq, ("/", Dq, ps[2]), ("*", ("/", Dq, ps[2]), ps[0])] if op == "*" else [Dq, ("/", Dq, ps[0]), ("*", ("/", Dq, ps[0]), ps[2])]
+                named_intermediates(ctx, "rate-intermediates", inst, t[3][0], nm, b["span"])
             # the like-quantity ratio used is Q / Q of this very type
             divs = [f for f in ev.calls_seen if f.get("trait") == "core::ops::arith::Div" and model.ty_key(f["args"][0]) == Q]
             deleg = [f for f in ev.calls_seen if (f.get("resolved") or {}).get("path") == U.resolve_item(RATE_MUL) and len(f["args"]) == 2 and model.ty_key(f["args"][1]) == Q]
